@@ -198,6 +198,19 @@ class ThreadRunner(PoolRunner):
                 "script": extra,
             }
             run.finish()
+        tr, cut = self.cut_after_race(tr)
+        if cut:
+            meta["cut_after_race_at"] = cut
+        key = hashlib.sha1(json.dumps(tr, sort_keys=True).encode()).hexdigest()
+        if key in self.seen:
+            self.seen[key]["dups"] += 1
+            return
+        item = {"scen": scen, "label": label, "trace": tr, "meta": meta, "dups": 0}
+        self.seen[key] = item
+        self.items.append(item)
+
+    @staticmethod
+    def cut_after_race(tr):
         last = {}
         for i, e in enumerate(tr["ev"]):
             o = e["obs"]
@@ -209,16 +222,8 @@ class ThreadRunner(PoolRunner):
                     raced = True
                 last[c] = cs
             if raced:
-                tr["ev"] = tr["ev"][: i + 1]
-                meta["cut_after_race_at"] = i + 1
-                break
-        key = hashlib.sha1(json.dumps(tr, sort_keys=True).encode()).hexdigest()
-        if key in self.seen:
-            self.seen[key]["dups"] += 1
-            return
-        item = {"scen": scen, "label": label, "trace": tr, "meta": meta, "dups": 0}
-        self.seen[key] = item
-        self.items.append(item)
+                return dict(tr, ev=tr["ev"][: i + 1]), i + 1
+        return tr, 0
 
     def add_coarse(self, scen, label, run):
         self.evaluations += 1
